@@ -31,6 +31,7 @@ def cfgOf (s : String) : Cfg :=
   match natList s with
   | [d, dry, st, h] => { dag := d, dry := dry == 1, steps := st, hands := h }
   | [d, dry, st, h, o] => { dag := d, dry := dry == 1, steps := st, hands := h, canOpen := o == 1 }
+  | [d, dry, st, h, o, sk] => { dag := d, dry := dry == 1, steps := st, hands := h, canOpen := o == 1, sock := sk }
   | _ => { dag := 0 }
 
 def parseTr (ws : List String) : List (Nat × Option Act) :=
@@ -50,7 +51,7 @@ def showAgent (w : World) (a : Nat) : String :=
   let ag := w.agents a
   s!"a{a} pc={pcName ag.pc} ex={ag.execs} hx={ag.hexecs} hist={ag.hist} recs={ag.recs} unl={ag.unlinks} binds={ag.binds} mid={if midRun ag then 1 else 0}"
 
-/-- line: `id agents d,dry,steps,hands[,canOpen];… tr a:act a:act …` -/
+/-- line: `id agents d,dry,steps,hands[,canOpen[,sock]];… tr a:act a:act …` -/
 def runLine (line : String) : String :=
   match words line with
   | id :: "agents" :: cs :: "tr" :: rest =>
@@ -60,7 +61,8 @@ def runLine (line : String) : String :=
     let dags := (cfgs.map (·.dag)).eraseDups
     let st := match stuck with | none => "ok" | some k => s!"stuck@{k}"
     id ++ " " ++ st ++ " | " ++ " | ".intercalate ((List.range n).map (showAgent w)) ++ " | " ++
-      " ".intercalate (dags.map fun d => s!"ns{d}={sockName (w.ns d)} lk{d}=" ++ (match w.lk d with | none => "-" | some a => toString a))
+      " ".intercalate (((cfgs.map (·.sock)).eraseDups).map fun k => s!"ns{k}={sockName (w.ns k)}") ++ " " ++
+      " ".intercalate (dags.map fun d => s!"lk{d}=" ++ (match w.lk d with | none => "-" | some a => toString a))
   | _ => "bad-line"
 
 end Driver.Lock
